@@ -1497,7 +1497,7 @@ var recHist = ev.New("C03", "replay-history",
 		"idle probe = open / optional acceptance of the same request elsewhere / +d in {0,1s-1ns,1s,29..31s,59..61s,100s} / optional other accept / bytes arrive; "+
 		"for identity-header classes optionally a server whose users are managed by cred.Manager from a store file, with steps edit file + ReloadAll / "+
 		"LoadFromFile, AddCredential, DeleteCredential, UpdateCredential of other users and a credential probe = accept / credential operation(s) / same bytes again; "+
-		"every verdict is judged at the instant the bytes arrive), retention probe = accept / move to accept+{59s,60s-1ns,60s,60s+1ns,60.5s,61s-1ns,61s} / optional other accept / same bytes again}; client clock and server clock are two synctest bubbles; every presentation is judged against the model "+
+		"every verdict is judged at the instant the fixed-length header has arrived completely), presentations whose bytes arrive in parts (part / abort steps, stall probe and stalled-copies probe, see replay-stalled), retention probe = accept / move to accept+{59s,60s-1ns,60s,60s+1ns,60.5s,61s-1ns,61s} / optional other accept / same bytes again}; client clock and server clock are two synctest bubbles; every presentation is judged against the model "+
 		"accept iff -30 < ts-floor(now) <= 30 (whole seconds) and never accepted before. Non-trivial: a request presented twice inside its validity window with another "+
 		"request accepted in between; distinct key = class + sequence of presentation classes").
 	Require("replay-in-window", "re-presented-60s-to-61s-after-accept", "re-presented-after-retention-with-accept-between", "fresh-after-forged-same-salt",
